@@ -170,6 +170,13 @@ def run_one(tape: Any, cfg: Dict[str, Any], forbid: FrozenSet[str] = frozenset()
                     if len(via) != 1 or b'proxy.py' not in via[0][1]:
                         w.fail('via_missing', pos, 'request %d: Via fields at origin: %r' % (i, via))
                         break
+                    cl = [v.strip() for n, v in r['headers'] if n.lower() == b'content-length']
+                    if meta['framing'] == 'length' and (not cl or any(not c.isdigit() or int(c) != len(meta['body']) for c in cl)):
+                        # a body delimited by Content-Length stays delimited by it, zero included (the header is one of 'the
+                        # same header fields'; a POST that loses 'Content-Length: 0' is a different request to many servers)
+                        w.fail('framing_changed', pos, 'request %d: client sent Content-Length %d, origin received Content-Length '
+                               'fields %r' % (i, len(meta['body']), cl))
+                        break
                     if r['body'] != meta['body']:
                         w.fail('wrong_body', '%s:%s' % (pos, meta['framing']),
                                'request %d: decoded body differs (%d vs %d bytes)' % (i, len(r['body']), len(meta['body'])))
